@@ -1,6 +1,8 @@
 // Public-API operations (database / crate / track), observation and raw dumps.
 #include <sqlite3.h>
 
+#include <filesystem>
+#include <fstream>
 #include <functional>
 
 #include "common.hpp"
@@ -511,6 +513,19 @@ static sqlite3* lib_conn()
     return v.back();
 }
 
+static std::string fnv_hex(const std::string& data)
+{
+    uint64_t h = 1469598103934665603ull;
+    for (unsigned char c : data)
+    {
+        h ^= c;
+        h *= 1099511628211ull;
+    }
+    char buf[17];
+    snprintf(buf, sizeof buf, "%016llx", (unsigned long long)h);
+    return buf;
+}
+
 static json rawdump(const json& a)
 {
     sqlite3* c = lib_conn();
@@ -536,7 +551,15 @@ static json rawdump(const json& a)
                 tables[name] = raw_query(c, "SELECT * FROM \"" + dbn + "\".\"" + name + "\"");
             }
         }
-        d["tables"] = tables;
+        if (a.value("digest", false))
+        {
+            json dig;
+            for (auto& [tn, tv] : tables.items()) dig[tn] = fnv_hex(tv.dump());
+            d["tables"] = dig;
+            d["master"] = fnv_hex(d["master"].dump());
+        }
+        else
+            d["tables"] = tables;
         if (checks)
         {
             d["integrity_check"] = raw_query(c, "PRAGMA \"" + dbn + "\".integrity_check")["rows"];
@@ -627,6 +650,70 @@ bool dispatch_api(State& st, const std::string& op, const json& a, json& ret)
     {
         st.reset();
         ret = (int)shim_connections().size();
+        return true;
+    }
+    if (op == "reopen")
+    {
+        // observe, release every handle and the database, load again from the directory,
+        // re-acquire the handles that were valid by id, observe again
+        auto dir = a.at("dir").get<std::string>();
+        // ids of removed entities stay in play, so that both observations probe the same lookups
+        for (auto& [h, t] : st.tracks) st.ids.insert(t.id());
+        for (auto& [h, c] : st.crates) st.ids.insert(c.id());
+        json before = observe_all(st, a);
+        std::map<std::string, int64_t> th, ch;
+        for (auto& [h, t] : st.tracks)
+            if (t.is_valid()) th[h] = t.id();
+        for (auto& [h, c] : st.crates)
+            if (c.is_valid()) ch[h] = c.id();
+        bool was_lib = st.lib.has_value();
+        st.tracks.clear();
+        st.crates.clear();
+        st.last_snapshot.reset();
+        st.lib.reset();
+        st.db.reset();
+        ret["conns_after_release"] = (int)shim_connections().size();
+        eng::engine_schema loaded = static_cast<eng::engine_schema>(-1);
+        if (was_lib)
+        {
+            st.lib = ev2::engine_library::load(dir);
+            st.db = st.lib->database();
+            loaded = st.lib->schema();
+        }
+        else
+            st.db = eng::load_database(dir, loaded);
+        ret["loaded_schema"] = eng::to_string(loaded);
+        ret["version_name"] = st.db->version_name();
+        for (auto& [h, i] : th)
+        {
+            auto t = st.db->track_by_id(i);
+            if (t) st.tracks.insert_or_assign(h, *t);
+        }
+        for (auto& [h, i] : ch)
+        {
+            auto c = st.db->crate_by_id(i);
+            if (c) st.crates.insert_or_assign(h, *c);
+        }
+        ret["before"] = before;
+        ret["after"] = observe_all(st, a);
+        return true;
+    }
+    if (op == "file_digest")
+    {
+        // FNV-1a of every regular file below the directory (recursively), by relative path
+        namespace fs = std::filesystem;
+        json out = json::object();
+        std::string dir = a.at("dir").get<std::string>();
+        std::error_code ec;
+        if (fs::exists(dir, ec))
+            for (auto& e : fs::recursive_directory_iterator(dir, ec))
+            {
+                if (!e.is_regular_file()) continue;
+                std::ifstream f(e.path(), std::ios::binary);
+                std::string data((std::istreambuf_iterator<char>(f)), std::istreambuf_iterator<char>());
+                out[fs::relative(e.path(), dir).string()] = fnv_hex(data) + ":" + std::to_string(data.size());
+            }
+        ret = out;
         return true;
     }
     if (op == "release_handle")
